@@ -41,6 +41,14 @@ def run(tier, seed):
     ctx.cov["programs_compiled"] = stats.get("compiled")
     import attrs_c08
     attrs_c08.run(ctx, tier)
+    # vars(...) in the post-init dialect (a bare #[parent] member changes the form of the Into body)
+    from checks import parent_stream as ps
+    pcases, pobs, pfail, pstats = ps.run_stream(ctx, tier)
+    precs = ps.records(pcases, pobs, pfail, {"vars"})
+    pok = ps.judge_into(ctx, pcases, precs, "c08-parent")
+    ctx.cov["parent_stream_vars_evaluations"] = len(precs)
+    ctx.cov["evaluations"] += len(precs)
+    ctx.cov["traces_validated_against_impl"] += pok
     ctx.cov["distinct_nontrivial"] = len({(json.dumps(r["in"], sort_keys=True), r.get("k"), r.get("f")) for r in recs
                                           if r["in"]["vars"] or r["in"]["upd"] or r["in"]["ret"]}) + ctx.cov.get("attr_cases", 0)
     ctx.cov["rule"] = ("struct stream with vars in {0,1,2} x ..update x return x member menus (incl. a member expression that uses a var and bare "
